@@ -303,7 +303,8 @@ def batchBase (s : State α) (pts : List (α × List α)) : State α :=
   let pending := s.pending.filter (fun p => !(pts.any (fun kv => decide (kv.1 = p))))
   let xs := sortList (data.map Prod.fst)
   let xsC := sortList (pending ++ data.map Prod.fst)
-  let bx : α × α := (xsC.headD 0, xsC.getLastD 0)
+  let bx : α × α := (if s.lo < xsC.headD 0 then s.lo else xsC.headD 0,
+                    if xsC.getLastD 0 < s.hi then s.hi else xsC.getLastD 0)
   let vals := data.map Prod.snd
   let mn := vals.foldl minL (vals.headD [])
   let mx := vals.foldl maxL (vals.headD [])
